@@ -1,30 +1,168 @@
 import Polyseed.Lemmas.Search
+import Polyseed.Lemmas.Rule
 import Polyseed.Props.C07
 /-!
 # C08 — abbreviated and unaccented words are accepted by one exact rule, and only by it
+
+`Rule L tok w` is written without reference to the code.  `find_iff_rule` says that for EVERY token (NUL-free
+byte string, as the tokeniser delivers it after NFKD) and every index the library's lookup returns that index
+exactly when the rule accepts the token for that word — in all ten languages.
+
+For Spanish and French the comparison form is `strip`: the string without its bytes >= 0x80.  On NFKD text of
+the Latin script these bytes are exactly the combining accents, which is what the property asks for; bytes
+>= 0x80 that are NOT accents are dropped as well (open finding D6), so with `strip` read as "drop accents" the
+statement is the property's, and read literally it states precisely what the code accepts.
 -/
 namespace Polyseed.C08
 
-/-- In Japanese, Korean and Chinese (no abbreviation, no accent folding) a token is accepted for a word
-if and only if it is exactly that word — for EVERY token (NUL-free byte string). -/
+/-- the rule: exact word; or, where abbreviation is allowed, a prefix of at least four letters; compared on the
+accent-stripped forms where accents are ignored. -/
+def Rule (L : Lang) (tok w : List Nat) : Prop :=
+  let t := if L.hasAccents then strip tok else tok
+  let e := if L.hasAccents then strip w else w
+  if L.hasPrefix then t = e ∨ (4 ≤ t.length ∧ t <+: e) else t = e
+
+theorem comparer_zero_iff (L : Lang) (tok w : List Nat) (ht : BytesOK tok) (hw : BytesOK w) :
+    getComparer L tok w = 0 ↔ Rule L tok w := by
+  unfold getComparer Rule NUM_CHARS_PREFIX
+  cases hp : L.hasPrefix <;> cases ha : L.hasAccents <;> simp only [↓reduceIte, Bool.false_eq_true]
+  · exact cmpStr_eq_zero tok w ht hw
+  · rw [cmpStrNoaccent_eq]; exact cmpStr_eq_zero _ _ (strip_bytesOK tok ht) (strip_bytesOK w hw)
+  · rw [cmpPrefix_eq_zero 4 tok w 1 ht hw]
+    constructor
+    · rintro (h | ⟨_, h2, h3⟩)
+      · exact Or.inl h
+      · exact Or.inr ⟨by omega, h3⟩
+    · rintro (h | ⟨h2, h3⟩)
+      · exact Or.inl h
+      · exact Or.inr ⟨by intro h; rw [h] at h2; simp at h2, by omega, h3⟩
+  · rw [cmpPrefixNoaccent_eq, cmpPrefix_eq_zero 4 _ _ 1 (strip_bytesOK tok ht) (strip_bytesOK w hw)]
+    constructor
+    · rintro (h | ⟨_, h2, h3⟩)
+      · exact Or.inl h
+      · exact Or.inr ⟨by omega, h3⟩
+    · rintro (h | ⟨h2, h3⟩)
+      · exact Or.inl h
+      · exact Or.inr ⟨by intro h; rw [h] at h2; simp at h2, by omega, h3⟩
+
+/-- **only by the rule**: whatever index the lookup returns, the rule accepts the token for that word
+(every language, every token). -/
+theorem find_only_by_rule (L : Lang) (hL : L ∈ Gen.registry) (tok : List Nat) (htok : BytesOK tok) (i : Nat)
+    (h : findWord L tok = some i) : ∃ hi : i < L.words.size, Rule L tok L.words[i] := by
+  obtain ⟨hi, hz⟩ := findWord_sound L tok i h
+  have hT := C07.tables_ok L hL
+  have hw : BytesOK L.words[i] := fun b hb =>
+    let ⟨_, h2⟩ := hT.bytes L.words[i] (by simp); ⟨(h2 b hb).1, (h2 b hb).2.1⟩
+  exact ⟨hi, (comparer_zero_iff L tok _ htok hw).mp hz⟩
+
+theorem mem_prefixes4 (e t : List Nat) (h4 : 4 ≤ t.length) (hp : t <+: e) (hne : t ≠ e) : t ∈ prefixes4 e := by
+  unfold prefixes4
+  simp only [List.mem_filterMap, List.mem_range]
+  have hle := hp.length_le
+  have hlt : t.length < e.length := by
+    rcases Nat.lt_or_ge t.length e.length with h | h
+    · exact h
+    · exact absurd (List.IsPrefix.eq_of_length_le hp h) hne
+  exact ⟨t.length, hlt, by simp only [h4, ↓reduceIte, Option.some.injEq]; exact (List.prefix_iff_eq_take.mp hp).symm⟩
+
+/-- the abbreviating languages are searched with `bsearch` -/
+theorem prefix_sorted : ∀ L ∈ Gen.registry, L.hasPrefix = true → L.isSorted = true := by
+  intro L hL
+  simp only [Gen.registry, List.mem_cons, List.not_mem_nil, or_false] at hL
+  rcases hL with rfl | rfl | rfl | rfl | rfl | rfl | rfl | rfl | rfl | rfl <;> decide +kernel
+
+/-- the lookup depends on the token only through its comparison form -/
+theorem findWord_strip (L : Lang) (hp : L.hasPrefix = true) (ha : L.hasAccents = true) (tok : List Nat) :
+    findWord L tok = findWord L (strip tok) := by
+  have : getComparer L tok = getComparer L (strip tok) := by
+    funext elm
+    simp only [getComparer, hp, ha, ↓reduceIte, cmpPrefixNoaccent_eq, strip_idem]
+  unfold findWord langSearch
+  rw [this]
+
+/-- **the rule accepts ⇒ the lookup finds**, and with `find_only_by_rule`:
+a token is accepted for word `i` IF AND ONLY IF the rule accepts it for that word. -/
+theorem find_iff_rule (L : Lang) (hL : L ∈ Gen.registry) (tok : List Nat) (htok : BytesOK tok) (i : Nat) (hi : i < L.words.size) :
+    findWord L tok = some i ↔ Rule L tok L.words[i] := by
+  constructor
+  · intro h; exact (find_only_by_rule L hL tok htok i h).2
+  · intro h
+    have hT := C07.tables_ok L hL
+    unfold Rule at h
+    cases hp : L.hasPrefix
+    · -- exact languages
+      simp only [hp, Bool.false_eq_true, ↓reduceIte] at h
+      cases ha : L.hasAccents
+      · simp only [ha, Bool.false_eq_true, ↓reduceIte] at h; rw [h]; exact hT.finds i hi
+      · -- no shipped language has accents without abbreviation
+        exfalso
+        simp only [Gen.registry, List.mem_cons, List.not_mem_nil, or_false] at hL
+        rcases hL with rfl | rfl | rfl | rfl | rfl | rfl | rfl | rfl | rfl | rfl <;> simp_all (config := { decide := true })
+    · have hs := prefix_sorted L hL hp
+      simp only [hp, ↓reduceIte] at h
+      cases ha : L.hasAccents
+      · simp only [ha, Bool.false_eq_true, ↓reduceIte] at h
+        rcases h with h | ⟨h4, hpre⟩
+        · rw [h]; exact hT.finds i hi
+        · by_cases heq : tok = L.words[i]
+          · rw [heq]; exact hT.finds i hi
+          · apply hT.findsKeys hs i hi
+            simp only [keysOf, hp, ha, ↓reduceIte, Bool.false_eq_true, List.mem_cons]
+            right; right; exact mem_prefixes4 _ _ h4 hpre heq
+      · simp only [ha, ↓reduceIte] at h
+        rw [findWord_strip L hp ha tok]
+        rcases h with h | ⟨h4, hpre⟩
+        · apply hT.findsKeys hs i hi
+          simp only [keysOf, hp, ha, ↓reduceIte, List.mem_cons]
+          right; left; exact h
+        · by_cases heq : strip tok = strip L.words[i]
+          · apply hT.findsKeys hs i hi
+            simp only [keysOf, hp, ha, ↓reduceIte, List.mem_cons]
+            right; left; exact heq
+          · apply hT.findsKeys hs i hi
+            simp only [keysOf, hp, ha, ↓reduceIte, List.mem_cons]
+            right; right; exact mem_prefixes4 _ _ h4 hpre heq
+
+/-- In Japanese, Korean and Chinese only the exact word is accepted. -/
 theorem find_exact_iff (L : Lang) (hL : L ∈ Gen.registry) (hp : L.hasPrefix = false) (ha : L.hasAccents = false)
     (tok : List Nat) (htok : BytesOK tok) (i : Nat) (hi : i < L.words.size) :
     findWord L tok = some i ↔ tok = L.words[i] := by
-  have hT := C07.tables_ok L hL
-  constructor
-  · intro h
-    obtain ⟨hi', hz⟩ := findWord_sound L tok i h
-    have hcmp : getComparer L = cmpStr := by simp [getComparer, hp, ha]
-    rw [hcmp] at hz
-    have hw : BytesOK L.words[i] := fun b hb =>
-      let ⟨_, h2⟩ := hT.bytes L.words[i] (by simp); ⟨(h2 b hb).1, (h2 b hb).2.1⟩
-    exact (cmpStr_eq_zero tok _ htok hw).mp hz
-  · rintro rfl
-    exact hT.finds i hi
+  rw [find_iff_rule L hL tok htok i hi]
+  simp [Rule, hp, ha]
 
-/-- the four exact languages -/
+/-- a token that is too short is never mapped to a longer word -/
+theorem too_short (L : Lang) (hL : L ∈ Gen.registry) (tok : List Nat) (htok : BytesOK tok) (i : Nat) (hi : i < L.words.size)
+    (hshort : (if L.hasAccents then strip tok else tok).length < 4)
+    (hne : (if L.hasAccents then strip tok else tok) ≠ (if L.hasAccents then strip L.words[i] else L.words[i])) :
+    findWord L tok ≠ some i := by
+  rw [Ne, find_iff_rule L hL tok htok i hi]
+  unfold Rule
+  simp only
+  split
+  · rintro (h | ⟨h4, _⟩)
+    · exact hne h
+    · omega
+  · exact hne
+
+/-- a token that continues with characters the word does not have is never mapped to that word -/
+theorem continues_otherwise (L : Lang) (hL : L ∈ Gen.registry) (tok : List Nat) (htok : BytesOK tok) (i : Nat) (hi : i < L.words.size)
+    (hnp : ¬ ((if L.hasAccents then strip tok else tok) <+: (if L.hasAccents then strip L.words[i] else L.words[i]))) :
+    findWord L tok ≠ some i := by
+  rw [Ne, find_iff_rule L hL tok htok i hi]
+  unfold Rule
+  simp only
+  split
+  · rintro (h | ⟨_, h⟩)
+    · exact hnp (h ▸ List.prefix_refl _)
+    · exact hnp h
+  · intro h; exact hnp (h ▸ List.prefix_refl _)
+
+/-- which languages abbreviate / fold accents -/
 theorem exact_languages : Gen.registry.map (fun L => (L.hasPrefix, L.hasAccents)) =
     [(true, false), (false, false), (false, false), (true, true), (true, true), (true, false), (true, false), (true, false), (false, false), (false, false)] := by
   decide +kernel
+
+/-- D6 in one line: stripping removes EVERY byte >= 0x80, so "ahogo" followed by U+65E5 has the comparison form of "ahogo" -/
+example : strip [97, 104, 111, 103, 111, 0xE6, 0x97, 0xA5] = [97, 104, 111, 103, 111] := by decide
 
 end Polyseed.C08
